@@ -154,7 +154,7 @@ def run_case(ctx, rng, index, casedir):
         wit = {"cores": cores, "batch": batch, "records": nrec, "plan_kind": kind,
                "plan": {kk: vv for kk, vv in planned.items() if kk != "max_groups"}}
         run = RR.run_driver(casedir, f"x{k}", ["realign", w.gaf, w.gfa, w.fasta, "-o", out, "-c", str(cores)],
-                            planned, batch, timeout=90)
+                            planned, batch, timeout=240)
         sit["executions"] += 1
         arrival = analyse(run, expected, out, viol, sit, wit)
         if arrival is not None and -(-nrec // batch) >= 2:
